@@ -796,6 +796,7 @@ type dagPrinter struct {
 	defs  []string
 	memo  map[*Term]string
 	n     int
+	pref  string
 }
 
 func newDagPrinter(roots []*Term) *dagPrinter {
@@ -880,7 +881,7 @@ func (p *dagPrinter) pr(t *Term) string {
 	// hoist shared or large closed terms into definitions
 	if len(t.fbv) == 0 && len(t.Args) > 0 && ((p.refs[t] >= 2 && len(s) > 24) || len(s) > 400) {
 		p.n++
-		name := fmt.Sprintf("tq_d%d", p.n)
+		name := fmt.Sprintf("tq_d%s%d", p.pref, p.n)
 		p.defs = append(p.defs, fmt.Sprintf("(define-fun %s () %s %s)", name, t.Sort, s))
 		p.names[t] = name
 		return name
